@@ -314,7 +314,8 @@ def r7(run, db):
             te = true_edge(sb, links[0]) if links else None
             # the link is optional (supervisor: Option); require: no path from the refused edge reaches mark_running
             fe = false_edge(sb, links[0]) if links else None
-            run.check(fe is not None and c.site not in edge_path_sites(sb, [fe]), "S|mark_running-after-link", "mark_running is unreachable from a refused link", None, c.where())
+            run.check(fe is not None and c.site not in edge_path_sites(sb, [fe]) and links and not sb.reaches_after(c.site, links[0].site) and sb.reaches_after(links[0].site, c.site), "S|mark_running-after-link",
+                      "mark_running comes after the (optional) link and is unreachable from a refused link", "the guard is armed for notification before the supervisor link is attempted: a refused link (supervisor shutting down) makes the failed spawn emit a terminal event", c.where())
         # ActorStarted
         lb = m.loop_body(rt)
         st = [(site, s) for site, s in lb.aggregates(adt="SupervisionEvent", variant="ActorStarted")]
